@@ -13,7 +13,7 @@ from .. import windows, model, progs
 
 rs = bootstrap()
 
-PREDS = ['div:%d', 'divt:%d', 'divs:%d', 'divbig:%d', 'divpar:%d', 'divhuge:%d', 'divf:%d', 'divnp:%d', 'divnpf:%d', 'divbool:%d', 'divcent:%d', 'divnone:%d', 'divnan:%d']
+PREDS = ['div:%d', 'divt:%d', 'divs:%d', 'divbig:%d', 'divpar:%d', 'divhuge:%d', 'divf:%d', 'divnp:%d', 'divnpf:%d', 'divbool:%d', 'divcent:%d', 'divnone:%d', 'divnan:%d', 'divobj:%d', 'divobjt:%d']
 
 
 def expected_segments(xs, pred):
@@ -53,7 +53,7 @@ class C06(Check):
     RULE += PRELUDE_RULE
     ASSUMPTIONS = ['predicate values are compared with != only (no hashing)']
     ANCHORS = ['rxsci/data/split.py', 'rxsci/operators/multiplex.py']
-    REQUIRED_TAGS = ['top', 'group', 'roll', 'roll_eq', 'split', 'pred=divt', 'pred=divs', 'pred=divbig', 'pred=divhuge', 'pred=divnp', 'pred=divbool', 'pred=divnone', 'pred=divnan', 'single-run', 'runs-of-1', 'empty-key'] + PRELUDE_TAGS
+    REQUIRED_TAGS = ['top', 'group', 'roll', 'roll_eq', 'split', 'pred=divt', 'pred=divs', 'pred=divbig', 'pred=divhuge', 'pred=divnp', 'pred=divbool', 'pred=divnone', 'pred=divnan', 'pred=divobj', 'pred=divobjt', 'single-run', 'runs-of-1', 'empty-key'] + PRELUDE_TAGS
     REQUIRED_OBSERVED = ['child_lifetimes_checked', 'parent_lifetimes_checked']
 
     def generate(self, rng, tier, shard, nshards):
